@@ -212,4 +212,73 @@ static inline vh_m128i vhm_mm_aeskeygenassist_si128(vh_m128i a, int rcon)
 	r.d[2] = x3; r.d[3] = ((x3 >> 8) | (x3 << 24)) ^ (uint32_t)(rcon & 0xff);
 	return r;
 }
+
+/* ---- intrinsics not used by the pinned tree but plausible in a change to it (so that such a change is decided, not a build error) ---- */
+static inline vh_m128i vhm_mm_and_si128(vh_m128i a, vh_m128i b) { vh_m128i r; for (int i = 0; i < 4; i++) r.d[i] = a.d[i] & b.d[i]; return r; }
+static inline vh_m128i vhm_mm_andnot_si128(vh_m128i a, vh_m128i b) { vh_m128i r; for (int i = 0; i < 4; i++) r.d[i] = ~a.d[i] & b.d[i]; return r; }
+static inline vh_m128i vhm_mm_sub_epi32(vh_m128i a, vh_m128i b) { vh_m128i r; for (int i = 0; i < 4; i++) r.d[i] = a.d[i] - b.d[i]; return r; }
+static inline vh_m128i vhm_mm_add_epi64(vh_m128i a, vh_m128i b)
+{
+	vh_m128i r;
+	for (int i = 0; i < 2; i++) { uint64_t x = ((uint64_t)a.d[2*i+1] << 32) | a.d[2*i], y = ((uint64_t)b.d[2*i+1] << 32) | b.d[2*i]; x += y; r.d[2*i] = (uint32_t)x; r.d[2*i+1] = (uint32_t)(x >> 32); }
+	return r;
+}
+static inline vh_m128i vhm_mm_add_epi16(vh_m128i a, vh_m128i b)
+{
+	vh_m128i r;
+	for (int i = 0; i < 4; i++) r.d[i] = ((a.d[i] + b.d[i]) & 0xffff) | ((((a.d[i] >> 16) + (b.d[i] >> 16)) & 0xffff) << 16);
+	return r;
+}
+static inline vh_m128i vhm_mm_add_epi8(vh_m128i a, vh_m128i b)
+{
+	uint8_t o[16];
+	for (int i = 0; i < 16; i++) o[i] = (uint8_t)(vhm_byte(a, i) + vhm_byte(b, i));
+	return vhm_from_bytes(o);
+}
+static inline vh_m128i vhm_mm_srai_epi32(vh_m128i a, int n)
+{
+	vh_m128i r;
+	for (int i = 0; i < 4; i++) { uint32_t sg = (a.d[i] >> 31) ? 0xffffffffu : 0; r.d[i] = (n < 0 || n > 31) ? sg : ((a.d[i] >> n) | (n ? (sg << (32 - n)) : 0)); }
+	return r;
+}
+static inline vh_m128i vhm_mm_srai_epi16(vh_m128i a, int n)
+{
+	vh_m128i r;
+	for (int i = 0; i < 4; i++) {
+		uint32_t h[2] = { a.d[i] & 0xffff, a.d[i] >> 16 };
+		for (int j = 0; j < 2; j++) { uint32_t sg = (h[j] >> 15) ? 0xffffu : 0; h[j] = (n < 0 || n > 15) ? sg : (((h[j] >> n) | (n ? (sg << (16 - n)) : 0)) & 0xffff); }
+		r.d[i] = h[0] | (h[1] << 16);
+	}
+	return r;
+}
+static inline vh_m128i vhm_mm_slli_epi64(vh_m128i a, int n)
+{
+	vh_m128i r;
+	for (int i = 0; i < 2; i++) { uint64_t q = ((uint64_t)a.d[2*i+1] << 32) | a.d[2*i]; q = (n < 0 || n > 63) ? 0 : q << n; r.d[2*i] = (uint32_t)q; r.d[2*i+1] = (uint32_t)(q >> 32); }
+	return r;
+}
+static inline vh_m128i vhm_mm_setzero_si128(void) { vh_m128i r; r.d[0] = r.d[1] = r.d[2] = r.d[3] = 0; return r; }
+static inline vh_m128i vhm_mm_set1_epi32(int e) { vh_m128i r; for (int i = 0; i < 4; i++) r.d[i] = (uint32_t)e; return r; }
+static inline vh_m128i vhm_mm_set1_epi8(char e) { vh_m128i r; for (int i = 0; i < 4; i++) r.d[i] = 0x01010101u * (uint8_t)e; return r; }
+static inline vh_m128i vhm_mm_setr_epi32(int e0, int e1, int e2, int e3) { return vhm_mm_set_epi32(e3, e2, e1, e0); }
+static inline vh_m128i vhm_mm_cvtsi32_si128(int e) { vh_m128i r; r.d[0] = (uint32_t)e; r.d[1] = r.d[2] = r.d[3] = 0; return r; }
+static inline int vhm_mm_cvtsi128_si32(vh_m128i a) { return (int)a.d[0]; }
+static inline vh_m128i vhm_mm_unpacklo_epi32(vh_m128i a, vh_m128i b) { vh_m128i r; r.d[0] = a.d[0]; r.d[1] = b.d[0]; r.d[2] = a.d[1]; r.d[3] = b.d[1]; return r; }
+static inline vh_m128i vhm_mm_unpackhi_epi32(vh_m128i a, vh_m128i b) { vh_m128i r; r.d[0] = a.d[2]; r.d[1] = b.d[2]; r.d[2] = a.d[3]; r.d[3] = b.d[3]; return r; }
+static inline vh_m128i vhm_mm_cmpeq_epi32(vh_m128i a, vh_m128i b) { vh_m128i r; for (int i = 0; i < 4; i++) r.d[i] = a.d[i] == b.d[i] ? 0xffffffffu : 0; return r; }
+static inline vh_m128i vhm_mm_cmpeq_epi8(vh_m128i a, vh_m128i b)
+{
+	uint8_t o[16];
+	for (int i = 0; i < 16; i++) o[i] = vhm_byte(a, i) == vhm_byte(b, i) ? 0xff : 0;
+	return vhm_from_bytes(o);
+}
+static inline int vhm_mm_movemask_epi8(vh_m128i a) { int m = 0; for (int i = 0; i < 16; i++) m |= (vhm_byte(a, i) >> 7) << i; return m; }
+static inline int vhm_mm_extract_epi32(vh_m128i a, int k) { return (int)a.d[k & 3]; }
+static inline vh_m128i vhm_mm_insert_epi32(vh_m128i a, int v, int k) { vh_m128i r = a; r.d[k & 3] = (uint32_t)v; return r; }
+static inline vh_m128i vhm_mm_blend_epi16(vh_m128i a, vh_m128i b, int imm)
+{
+	vh_m128i r;
+	for (int i = 0; i < 4; i++) { uint32_t lo = ((imm >> (2 * i)) & 1) ? b.d[i] & 0xffff : a.d[i] & 0xffff, hi = ((imm >> (2 * i + 1)) & 1) ? b.d[i] >> 16 : a.d[i] >> 16; r.d[i] = lo | (hi << 16); }
+	return r;
+}
 #endif /* !VH_X86_H_ */
